@@ -105,7 +105,7 @@ func (p *tlsConfigPool) LoadTLSConfig(config TLSConfig) (*tls.Config, error) {
 	case config.GetTrustedCertificateAuthorityFile() != "":
 		var err error
 		ca, err = p.caWatcher.WatchFile(
-			NewFileReader(config.GetTrustedCertificateAuthorityFile()),
+			&tlsConfigCAReader{FileReader: NewFileReader(config.GetTrustedCertificateAuthorityFile()), id: id},
 			config.GetTrustedCertificateAuthorityRefreshInterval().AsDuration(),
 			func(data []byte) { p.updateCA(id, data) },
 		)
@@ -176,6 +176,17 @@ func (p *tlsConfigPool) updateCA(id string, caPem []byte) {
 
 // tlsConfigEncoder is the internal representation of a TLSConfig.
 // It handles some useful methods for the TLSConfig.
+// tlsConfigCAReader reads the trusted CA file on behalf of one TLS configuration. The file watcher keeps one
+// watcher per reader ID and cancels the previous one, so the plain file path cannot be used as ID: a second
+// configuration on the same file (another refresh interval or skip_verify value) would silently stop the
+// reloads of the first one. The ID therefore includes the configuration id.
+type tlsConfigCAReader struct {
+	*FileReader
+	id string
+}
+
+func (r *tlsConfigCAReader) ID() string { return r.FileReader.ID() + "#" + r.id }
+
 type tlsConfigEncoder struct {
 	SkipVerifyPeerCert       bool   `json:"skipVerifyPeerCert,omitempty"`
 	TrustedCA                string `json:"trustedCertificateAuthority,omitempty"`
